@@ -131,6 +131,23 @@ def multi_scenarios():
             sc[name] = base(evs, se, dict(fshocks=[
                 dict(target=ta, session=sa, triggerTime=0 if sa != sb else 1, length=2, rate=0.5, enabled=True),
                 dict(target=tb, session=sb, triggerTime=1, length=2, rate=-0.25, enabled=True)]), name)
+    # shocks whose entry extends a template and overrides fields with values that happen to be falsy
+    # (enabled: false -- the shock must not act; triggerTime: 0 -- it acts at the session's first step)
+    for kind in ("f", "m"):
+        for variant in ("enabled_false", "trigger_0"):
+            name = "%sshock_extends_template:%s" % (kind, variant)
+            if kind == "f":
+                tmpl = {"class": "FundamentalPriceShock", "target": "M0", "triggerTime": 2, "priceChangeRate": 0.5, "shockTimeLength": 1, "enabled": True}
+            else:
+                tmpl = {"class": "OrderMistakeShock", "target": "M0", "triggerTime": 2, "priceChangeRate": -0.5, "orderVolume": 5, "orderTimeLength": 2, "enabled": True}
+            leaf = {"extends": "SHT"}
+            leaf.update({"enabled": False} if variant == "enabled_false" else {"triggerTime": 0})
+            tt, en = (2, False) if variant == "enabled_false" else (0, True)
+            if kind == "f":
+                meta = dict(fshocks=[dict(target="M0", session=1, triggerTime=tt, length=1, rate=0.5, enabled=en)])
+            else:
+                meta = dict(mshocks=[dict(target="M0", session=1, triggerTime=tt, rate=-0.5, volume=5, lifetime=2, enabled=en)])
+            sc[name] = base({"SHT": tmpl, "SH": leaf}, [[], ["SH"]], meta, name)
     # a shock whose window is empty (shockTimeLength 0): it never acts
     for target in ("M0", "M1"):
         for sess in (0, 1):
